@@ -29,8 +29,12 @@ pub fn from_stdin() {
         let c0: u64 = f[1].parse().unwrap();
         let initial: usize = f[2].parse().unwrap();
         // a leading 'A' marks every initial file as read (atime after mtime)
-        let all_read = f[3].starts_with('A');
-        let ops = f[3].trim_start_matches('A');
+        // a leading 'E' builds the cache on the EMPTY relative path (the process's current
+        // directory, which is then the directory created for this case)
+        let empty_path = f[3].starts_with('E');
+        let f3 = f[3].trim_start_matches('E');
+        let all_read = f3.starts_with('A');
+        let ops = f3.trim_start_matches('A');
         let draws: Vec<u64> = if f[4] == "-" { vec![] } else { f[4].split(',').map(|s| s.parse().unwrap()).collect() };
         idx += 1;
         let dir = root.path().join(format!("g{}", idx));
@@ -51,7 +55,12 @@ pub fn from_stdin() {
             filetime::set_file_times(&p, base, m).unwrap();
         }
         let capu = if cap > usize::MAX as u64 { usize::MAX } else { cap as usize };
-        let cache = Cache::new(dir.clone(), capu);
+        let cache = if empty_path {
+            std::env::set_current_dir(&dir).unwrap();
+            Cache::new(std::path::PathBuf::new(), capu)
+        } else {
+            Cache::new(dir.clone(), capu)
+        };
         vh::clear_scripts();
         vh::set_trigger_counter(c0);
         vh::push_trigger_draws(&draws);
@@ -73,6 +82,9 @@ pub fn from_stdin() {
         }
         writeln!(out, "G {} => {} used={}", line.trim(), res.join(" "), vh::trigger_draws_used() - used0).unwrap();
         vh::clear_scripts();
+        if empty_path {
+            std::env::set_current_dir(root.path()).unwrap();
+        }
         let _ = std::fs::remove_dir_all(&dir);
     }
 }
